@@ -21,6 +21,11 @@ import (
 
 var simPrefixes = []string{"10.10.1.0/24", "10.10.2.0/24", "2001:db8:1::/48"}
 
+// simCollidingPrefixes: two IPv6 host routes whose 64-bit table keys (FNV-1a over the NLRI, internal/pkg/table
+// tableKey) are equal: they share one hash bucket of the table's shard map (found by a distinguished-point
+// search; the C02 harness checks the collision before relying on it). Selected with the argument "collide".
+var simCollidingPrefixes = []string{"2001:db8::e35f:7abc:b8d9:c9b0/128", "2001:db8::9151:51de:6c00:fd1e/128"}
+
 type simBotKind struct {
 	name string
 	spec func(i int) simBotSpec
@@ -79,6 +84,7 @@ type simRoutesScenario struct {
 	noAPI   bool
 	noPeers bool
 	noDrain bool // teardown without force-draining the peers' queues (C20 leak oracle)
+	pfxs    []string // prefix alphabet (default simPrefixes)
 	maxPfx  int    // if >0: bot 0's neighbour is configured with this prefix limit (per family)
 	src     string // if set: only the bots whose index digit occurs here announce / withdraw
 	flap    string // if set: only the bots whose index digit occurs here go down / up
@@ -118,6 +124,9 @@ func init() {
 				sc.noPeers = true
 			case "nodrain":
 				sc.noDrain = true
+			case "collide":
+				sc.pfxs = simCollidingPrefixes
+				sc.npfx = 2
 			case "maxpfx":
 				fmt.Sscan(v, &sc.maxPfx)
 			case "src":
@@ -131,6 +140,13 @@ func init() {
 }
 
 func (sc *simRoutesScenario) ForceDrain() bool { return !sc.noDrain }
+
+func (sc *simRoutesScenario) prefix(i int) string {
+	if sc.pfxs != nil {
+		return sc.pfxs[i]
+	}
+	return simPrefixes[i]
+}
 
 func (sc *simRoutesScenario) Setup(w *simWorld) {
 	sc.model = map[string]simModelRoute{}
@@ -185,7 +201,7 @@ func (sc *simRoutesScenario) botFamilies(b *simBot) []bgp.Family { return b.spec
 
 func (sc *simRoutesScenario) pfxOK(b *simBot, p int) bool {
 	f := bgp.RF_IPv4_UC
-	if strings.Contains(simPrefixes[p], ":") {
+	if strings.Contains(sc.prefix(p), ":") {
 		f = bgp.RF_IPv6_UC
 	}
 	for _, x := range b.spec.Families {
@@ -212,7 +228,7 @@ func (sc *simRoutesScenario) Enabled(w *simWorld) []simEvent {
 					ev = append(ev, simEvent{Op: "ann", Bot: i, A: pf, B: v})
 				}
 				ev = append(ev, simEvent{Op: "wd", Bot: i, A: pf})
-				if b.spec.AddPath[bgp.RF_IPv4_UC]&bgp.BGP_ADD_PATH_SEND != 0 && !strings.Contains(simPrefixes[pf], ":") {
+				if b.spec.AddPath[bgp.RF_IPv4_UC]&bgp.BGP_ADD_PATH_SEND != 0 && !strings.Contains(sc.prefix(pf), ":") {
 					// a second path-id for the same prefix
 					ev = append(ev, simEvent{Op: "ann", Bot: i, A: pf, B: 1, C: 2})
 					ev = append(ev, simEvent{Op: "wd", Bot: i, A: pf, C: 2})
@@ -242,7 +258,7 @@ func (sc *simRoutesScenario) Enabled(w *simWorld) []simEvent {
 
 // route variants; MED = 100+variant identifies the variant in every RIB
 func (sc *simRoutesScenario) attrs(b *simBot, pfx, variant int) ([]bgp.PathAttributeInterface, bgp.Family, bgp.NLRI) {
-	prefix := netip.MustParsePrefix(simPrefixes[pfx])
+	prefix := netip.MustParsePrefix(sc.prefix(pfx))
 	nlri, _ := bgp.NewIPAddrPrefix(prefix)
 	fam := bgp.RF_IPv4_UC
 	if prefix.Addr().Is6() {
@@ -355,11 +371,11 @@ func (sc *simRoutesScenario) Apply(w *simWorld, e simEvent) {
 		attrs, fam, nlri := sc.attrs(nil, e.A, e.B)
 		_, err := w.s.AddPath(apiutil.AddPathRequest{Paths: []*apiutil.Path{{Family: fam, Nlri: nlri, Attrs: attrs}}})
 		w.must(err)
-		sc.local[simPrefixes[e.A]] = e.B
+		sc.local[sc.prefix(e.A)] = e.B
 	case "apidel":
 		attrs, fam, nlri := sc.attrs(nil, e.A, 0)
 		_ = w.s.DeletePath(apiutil.DeletePathRequest{Paths: []*apiutil.Path{{Family: fam, Nlri: nlri, Attrs: attrs}}})
-		delete(sc.local, simPrefixes[e.A])
+		delete(sc.local, sc.prefix(e.A))
 	default:
 		panic("unknown event " + e.Op)
 	}
